@@ -25,7 +25,7 @@ pub const R_160_147: f64 = 160.0 / 147.0;
 fn async_lattice(tier: Tier, want_probe_only: bool) -> Vec<Cfg> {
     let q = tier == Tier::Quick;
     let ratios: Vec<f64> = if q {
-        vec![0.5, 1.0, 2.0, R_147_160]
+        vec![0.5, 1.0, 2.0, 16.0, R_147_160]
     } else {
         vec![1.0 / 16.0, 0.25, 0.5, 0.8, 1.0, 1.6, 2.0, 4.0, 16.0, R_147_160, R_160_147, 1.2]
     };
@@ -40,7 +40,7 @@ fn async_lattice(tier: Tier, want_probe_only: bool) -> Vec<Cfg> {
             || (l == 64 && os == 2 && interp == Interp::Cubic)
     };
     let sinc_variants: Vec<(usize, Interp)> = if q {
-        vec![(2, Interp::Cubic), (2, Interp::Linear), (1, Interp::Cubic)]
+        vec![(2, Interp::Cubic), (2, Interp::Linear), (1, Interp::Cubic), (256, Interp::Cubic)]
     } else {
         vec![
             (1, Interp::Linear),
@@ -275,7 +275,7 @@ pub fn spec_for(id: &str, tier: Tier, cfg: &Cfg) -> Spec {
             _ => vec![],
         },
         final_layer_first_only: id == "C13",
-        sample_every: if id == "C10" { if q { 16 } else { 8 } } else { 0 },
+        sample_every: if id == "C10" { if q { 32 } else { 8 } } else { 0 },
     }
 }
 
